@@ -282,6 +282,20 @@ class Build(object):
         rc, txt = sh(["gfortran", "-cpp", "-ffree-form", "-g", "-fPIC", "-c", path, "-o", o,
                       "-J", self.d] + self.inc + list(fflags), self.d)
         if rc != 0:
+            # gfortran does not say which procedure a line belongs to: add it (the classification of findings
+            # goes by the function, not by the wording)
+            lines = text.splitlines()
+            procs = []
+            for m in re.finditer(re.escape(os.path.basename(path)) + r":(\d+):", txt):
+                k = min(int(m.group(1)), len(lines)) - 1
+                while k >= 0:
+                    mm = re.match(r"\s*(?:[\w()=, ]*\s)?(?:function|subroutine)\s+(\w+)", lines[k], re.I)
+                    if mm and not lines[k].strip().lower().startswith("end"):
+                        if mm.group(1) not in procs:
+                            procs.append(mm.group(1))
+                        break
+                    k -= 1
+            txt = "".join("[in procedure %s]\n" % p_ for p_ in procs) + txt
             self.problem("compile-fortran", path, txt)
             return None
         self.add_object(o, os.path.basename(path))
